@@ -334,7 +334,45 @@ def force_theory(ex, st):
     def EVENT(ex_, st_, t_):
         ex_state[0] = st_
         return event(t_)
-    names.update({'CS': SpecFunc(cs, 'CS'), 'NEV': NEV, 'EVENT': EVENT, 'NSTATES': S})
+    # the same notion on the state path (used by the positions variant): frame t enters a label state
+    NEVS = z3.Function('N_label_entries', z3.IntSort(), z3.IntSort())
+
+    def pth(t_):
+        return to_int(as_array(ex_state[0], ex_state[0].env['original_align']).get(to_int(t_)))
+
+    def sevent(t_):
+        t_ = to_int(t_)
+        return z3.And(pth(t_) % 2 == 1, z3.Or(t_ == 0, pth(t_) != pth(t_ - 1)))
+
+    def nevs_def(t_):
+        t_ = to_int(t_)
+        one = z3.If(sevent(t_), 1, 0)
+        return z3.And(z3.Implies(t_ == 0, NEVS(0) == one), z3.Implies(t_ >= 1, NEVS(t_) == NEVS(t_ - 1) + one))
+
+    def NEVSTATE(ex_, st_, t_):
+        ex_state[0] = st_
+        if ex_.pending_defs:
+            ex_.pending_defs[-1].append(nevs_def(t_))
+        return NEVS(to_int(t_))
+
+    def SEVENT(ex_, st_, t_):
+        ex_state[0] = st_
+        return sevent(t_)
+    # WIT(u, i): the frame <= u at which the (i+1)-th label was entered (explicit witness, so that no existential has to be carried
+    # through the induction)
+    WITF = z3.Function('ENTRY_FRAME', z3.IntSort(), z3.IntSort(), z3.IntSort())
+
+    def wit_def(u_, i_):
+        u_, i_ = to_int(u_), to_int(i_)
+        return z3.And(z3.Implies(u_ <= 0, WITF(u_, i_) == 0),
+                      z3.Implies(u_ >= 1, WITF(u_, i_) == z3.If(z3.And(sevent(u_), NEVS(u_) == i_ + 1), u_, WITF(u_ - 1, i_))))
+
+    def WIT(ex_, st_, u_, i_):
+        ex_state[0] = st_
+        if ex_.pending_defs:
+            ex_.pending_defs[-1].extend([wit_def(u_, i_), nevs_def(u_)])
+        return WITF(to_int(u_), to_int(i_))
+    names.update({'CS': SpecFunc(cs, 'CS'), 'NEV': NEV, 'EVENT': EVENT, 'NSTATES': S, 'NEVS': NEVSTATE, 'SEVENT': SEVENT, 'WIT': WIT})
     return names, axioms
 
 
@@ -377,11 +415,68 @@ import copy as _copy
 _fa = CONTRACTS[(PATH, 'force_align')]
 _fp = _copy.copy(_fa)
 _fp.params = dict(_fa.params, return_seq_positions='const:True')
-_fp.lemmas = []
+_fp.lemmas = [
+    # the state path never goes back ...
+    {'name': 'path-is-monotone', 'var': 'u', 'lo': '0', 'hi': _T2 + ' - 1', 'direction': 'up',
+     'stmt': '0 <= original_align[u] and original_align[u] < ' + _S2 + ' and forall(lambda v: implies(0 <= v and v <= u, original_align[v] <= original_align[u]))'},
+    # ... the number of label entries so far is the number of labels the current state has reached ...
+    {'name': 'entries-follow-the-states', 'var': 'u', 'lo': '0', 'hi': _T2 + ' - 1', 'direction': 'up',
+     'stmt': 'NEVS(u) == (original_align[u] + 1) // 2'},
+    # ... and it grows by at most one per frame, so every count 1..NEVS(u) was reached by an entering frame
+    {'name': 'every-label-is-entered', 'var': 'u', 'lo': '0', 'hi': _T2 + ' - 1', 'direction': 'up',
+     'stmt': 'forall(lambda i: implies(0 <= i and i < NEVS(u), 0 <= WIT(u, i) and WIT(u, i) <= u and SEVENT(WIT(u, i)) and NEVS(WIT(u, i)) == i + 1))'},
+    # hence label i owns the frame WIT(T-1, i)
+    {'name': 'entry-frame-carries-the-label',
+     'stmt': 'forall(lambda i: implies(0 <= i and i < len(symbols_seq), 0 <= WIT(' + _T2 + ' - 1, i) and WIT(' + _T2 + ' - 1, i) < ' + _T2 + ' and '
+             'original_align[WIT(' + _T2 + ' - 1, i)] == 2 * i + 1))'},
+]
 # the variant used by align_text: per frame the index of the label the optimal state belongs to, -1 in blank states
 _fp.ensures = ['len(result) == ' + _T2,
                'forall(lambda t: implies(0 <= t and t < ' + _T2 + ', result[t] == (-1 if original_align[t] % 2 == 0 else original_align[t] // 2)))',
-               'forall(lambda t: implies(0 <= t and t < ' + _T2 + ', -1 <= result[t] and result[t] < len(symbols_seq)))']
+               'forall(lambda t: implies(0 <= t and t < ' + _T2 + ', -1 <= result[t] and result[t] < len(symbols_seq)))',
+               # label indices never decrease along the frames (blank frames aside) ...
+               'forall(lambda t, t2: implies(0 <= t and t <= t2 and t2 < ' + _T2 + ' and result[t] >= 0 and result[t2] >= 0, result[t] <= result[t2]))',
+               # ... and every label owns at least one frame
+               'forall(lambda i: implies(0 <= i and i < len(symbols_seq), 0 <= WIT(' + _T2 + ' - 1, i) and WIT(' + _T2 + ' - 1, i) < ' + _T2 + ' and '
+               'result[WIT(' + _T2 + ' - 1, i)] == i))']
+def _fa_result(ex, st, env):
+    from pyvc.arrays import as_array
+    r = fresh_array((to_int(as_array(st, env['neg_logprobs']).shape[0]),), 'int', 'frame_labels')
+    r.is_list = True
+    return r
+
+
+_fp.result = _fa_result
+# what callers may use: the clauses that do not mention the callee's local state path (the witness clause in its existential form)
+_fp.public_ensures = [_fp.ensures[0], _fp.ensures[2], _fp.ensures[3],
+                      'forall(lambda i: implies(0 <= i and i < len(symbols_seq), exists(lambda t: 0 <= t and t < ' + _T2 + ' and result[t] == i)))']
 CONTRACTS[(PATH, 'force_align', 'positions')] = _fp
 
-KEYS = [(PATH, k) for k in ('initial_cost', 'final_cost', 'complete_state_seq', 'hmm_trans_from_string', 'compute_update', 'backtrack', 'viterbi_align', 'force_align')] + [(PATH, 'force_align', 'positions')]
+# ---------------------------------------------------------------------------------------------------
+# align_text: for every character the most confident frame of its block; positions strictly increasing
+
+def _at_theory(ex, st):
+    st.env = dict(st.env)
+    st.env['symbols_seq'] = st.env['transcription']
+    return force_theory(ex, st)
+
+
+_n3 = 'len(transcription)'
+AT_BLOCK = ('forall(lambda i: implies(0 <= i and i < %s, 0 <= char_positions[i] and char_positions[i] < ' + _T2 + ' and '
+            'logit_characters[char_positions[i]] == i and '
+            'forall(lambda t: implies(0 <= t and t < ' + _T2 + ' and logit_characters[t] == i, max_probs[t] <= max_probs[char_positions[i]]))))')
+CONTRACTS[(PATH, 'align_text')] = Contract(
+    params={'neg_logprobs': 'nd2:xreal', 'transcription': 'nd1:int', 'blank_symbol': 'int'},
+    theory=_at_theory,
+    requires=[_T2 + ' >= 1', _n3 + ' >= 1', '0 <= blank_symbol and blank_symbol < neg_logprobs.shape[1]',
+              'forall(lambda q: implies(0 <= q and q < ' + _n3 + ', 0 <= transcription[q] and transcription[q] < neg_logprobs.shape[1] and transcription[q] != blank_symbol))',
+              'not (isinf(V(' + _T2 + ' - 1, 2 * ' + _n3 + ')) and isinf(V(' + _T2 + ' - 1, 2 * ' + _n3 + ' - 1)))'],
+    ensures=['len(result) == ' + _n3,
+             # every character is placed on a frame of its own block, the one where the network is most confident ...
+             AT_BLOCK.replace('char_positions', 'result') % _n3,
+             # ... and the positions are strictly increasing
+             'forall(lambda i, i2: implies(0 <= i and i < i2 and i2 < ' + _n3 + ', result[i] < result[i2]))'],
+    loops={0: LoopSpec(counter='kk', inv=['len(char_positions) == ' + _n3, AT_BLOCK % 'kk'])},
+)
+
+KEYS = [(PATH, k) for k in ('initial_cost', 'final_cost', 'complete_state_seq', 'hmm_trans_from_string', 'compute_update', 'backtrack', 'viterbi_align', 'force_align', 'align_text')] + [(PATH, 'force_align', 'positions')]
